@@ -958,16 +958,25 @@ class Interp:
         if m:
             ty, trait, targs, meth = m.group(1), m.group(2).split('::')[-1], (m.group(3) or '')[1:-1], m.group(4)
             cands = info.trait_impls.get((last_seg(ty), trait, meth), [])
+            if len(cands) > 1:
+                # same type name in several modules (ast::Range / source::Range): the callee path decides
+                typath = re.sub(r"^&(?:mut )?", '', strip_generics(ty).split('<')[0])
+                byp = [c for c in cands if (c[3].split('::<impl at')[0] + '::' + last_seg(ty)).endswith('::' + typath) or c[3].split('::<impl at')[0] + '::' + last_seg(ty) == typath]
+                if '::' in typath and byp: cands = byp
             if len(cands) == 1: return self._pick(info, [cands[0][3]])
             if len(cands) > 1:
                 best = None
-                for pat, gens, selfty, nm in cands:
+                for cand in cands:
+                    pat, gens, selfty, nm = cand[:4]
                     sc = self._unify(pat, gens, targs)
                     if sc is None: continue
                     s2 = self._unify(selfty, gens, ty)
                     if s2 is None: s2 = -1
-                    if best is None or (sc + s2) > best[0]: best = (sc + s2, nm)
-                if best: return self._pick(info, [best[1]])
+                    if best is None or (sc + s2) > best[0]: best = (sc + s2, cand)
+                if best:
+                    cand = best[1]
+                    if len(cand) > 4: return info.mir.fns[cand[3]][cand[4]]
+                    return self._pick(info, [cand[3]])
                 return None
             d = info.trait_defaults.get((trait, meth))
             if d and (last_seg(ty), ) and self._type_known(info, last_seg(ty)): return self._pick(info, [d])
@@ -975,13 +984,24 @@ class Interp:
                 # a generic type parameter: the instantiation is not in the (polymorphic) MIR; decidable only
                 # when the crate has exactly one implementation of that trait method
                 allc = [v for (t, tr, me), v in info.trait_impls.items() if tr == trait and me == meth]
-                if len(allc) == 1 and len(allc[0]) == 1: return self._pick(info, [allc[0][0][3]])
+                if len(allc) == 1 and len(allc[0]) == 1 and len(allc[0][0]) == 4: return self._pick(info, [allc[0][0][3]])
             return None
         if strict_type_only and '::' not in key: return None
+        mi = re.match(r'^(?:[\w:]+::)?<impl ([\w:]+)(?:<.*>)?>::(\w+)$', key)
+        if mi:
+            names = info.inherent.get((mi.group(1).split('::')[-1], mi.group(2)))
+            if names:
+                f = self._pick(info, names)
+                if f is not None: return f
+            return None
         segs = key.split('::')
         if len(segs) >= 2:
             names = info.inherent.get((segs[-2], segs[-1]))
             if names:
+                if len(names) > 1 and len(segs) >= 3:
+                    typath = '::'.join(segs[:-1])
+                    byp = [n for n in names if (n.split('::<impl at')[0] + '::' + segs[-2]).endswith('::' + typath) or n.split('::<impl at')[0] + '::' + segs[-2] == typath]
+                    if byp: names = byp
                 f = self._pick(info, names)
                 if f is not None: return f
                 # several impl blocks define the method for different type arguments: cannot decide statically
@@ -989,7 +1009,7 @@ class Interp:
             d = info.trait_defaults.get((segs[-2], segs[-1]))
             if d and not strict_type_only: return self._pick(info, [d])
         if strict_type_only: return None
-        cands = [n for n in info.mir.by_last.get(segs[-1], []) if (n == key or n.endswith('::' + key)) and '<impl at' not in n]
+        cands = [n for n in info.mir.by_last.get(segs[-1], []) if (n == key or n.endswith('::' + key) or key.endswith('::' + n)) and '<impl at' not in n]
         if len(cands) == 1: return self._pick(info, cands)
         return None
 
@@ -1038,6 +1058,10 @@ class Interp:
                 else:
                     raise Unsupported('fell off block in ' + hk)
                 if ctx.steps > STEP_LIMIT: raise Unsupported('step limit')
+        except Unsupported as e:
+            if not getattr(e, 'located', False):
+                e.args = (f'{e.args[0]} [in {hk} bb{bb}]',); e.located = True
+            raise
         finally:
             ctx.depth -= 1
 
